@@ -258,9 +258,13 @@ def _run_parse(idx, case):
                 finally:
                     os.unlink(fn)
                 if case["verdict"] != "ok":
-                    # claim: an invalid value is refused (the message / exception type of the loader is not part of the claim)
+                    # claim: an invalid value is refused with the loader's message, which names the parameter and the reason
                     if exc is None:
                         return f"{what}: loaded x = {params['x']!r}, the specification rejects the value ({case['verdict']})"
+                    reason = {"small": "too small", "big": "too big", "type": "wrong type"}[case["verdict"]]
+                    if type(exc) is not Exception or "'x'" not in str(exc) or reason not in str(exc):
+                        return (f"{what}: raised {type(exc).__name__}: {exc}; expected the loader's message naming 'x' and "
+                                f"'{reason}'")
                     continue
                 if exc is not None:
                     return f"{what}: raised {type(exc).__name__}: {exc}"
@@ -318,7 +322,7 @@ def run(ctx):
     ctx.assumptions += ["array elements are exactly representable (integers, quarters, multiples of 2.5): np.allclose's tolerance "
                         "never decides a case",
                         "an item that expands to nothing is only read without bounds",
-                        "the loader's claim for a rejected value is that it raises; the exception type and message are not claimed"]
+                        "the check functions' claim for a rejected value is the validate.* exception type; the loader's is its message"]
 
 
 def replay(ctx, data):
